@@ -240,7 +240,7 @@ func TestC01Streams(t *testing.T) {
 	rapid.Check(t, func(t *rapid.T) {
 		stream := rapid.Bool().Draw(t, "streaming")
 		readBuf := rapid.SampledFrom([]int{4096, 4096, 1, 8192}).Draw(t, "readBuf")
-		s := gen.GenStream(t, 6, gen.ReqOpts{Fold: true, NearMiss: true, Expect: true, HTTP10: true, ChunkExt: true, Huge: ev.Thorough()})
+		s := gen.GenStream(t, 6, gen.ReqOpts{Fold: true, NearMiss: true, Expect: true, HTTP10: true, ChunkExt: true, TabOWS: true, Huge: ev.Thorough()})
 		nt, cls := classify(s, stream)
 		curStop = -1
 		if stream && rapid.IntRange(0, 3).Draw(t, "handlerStopsEarly") == 0 {
@@ -396,7 +396,7 @@ func TestC01Loopback(t *testing.T) {
 	rapid.Check(t, func(t *rapid.T) {
 		transport := rapid.SampledFrom([]string{"netpoll", "netpoll-idle0", "standard"}).Draw(t, "transport")
 		stream := rapid.Bool().Draw(t, "streaming")
-		s := gen.GenStream(t, 5, gen.ReqOpts{Fold: true, NearMiss: true, Expect: true, HTTP10: true, ChunkExt: true, Huge: ev.Thorough()})
+		s := gen.GenStream(t, 5, gen.ReqOpts{Fold: true, NearMiss: true, Expect: true, HTTP10: true, ChunkExt: true, TabOWS: true, Huge: ev.Thorough()})
 		if last := s.Reqs[len(s.Reqs)-1]; !last.Close {
 			gen.SetClose(last)
 			s.Encode()
